@@ -596,6 +596,7 @@ acquire_stop(struct AcquireRuntime* self_)
         ECHO(thread_join(&video->source.thread));
         ECHO(thread_join(&video->filter.thread));
         ECHO(thread_join(&video->sink.thread));
+        channel_accept_writes(&video->filter.in, 1);
         channel_accept_writes(&video->sink.in, 1);
 
         // The workers have exited. Whatever they left unread in their input
@@ -632,6 +633,10 @@ acquire_abort(struct AcquireRuntime* self_)
         }
 
         video->source.is_stopping = 1;
+        // The source writes to the filter's queue when averaging is on: refuse
+        // writes there as well, or a source that waits for space in that
+        // queue (the filter thread may be gone) is never released.
+        channel_accept_writes(&video->filter.in, 0);
         channel_accept_writes(&video->sink.in, 0);
         // if the camera is waiting on a trigger, this will unblock it.
         camera_execute_trigger(video->source.camera);
